@@ -632,7 +632,43 @@ func init() {
 		},
 		// errors
 		"errors.Is": func(m *Machine, c *frame, fn *ssa.Function, a []value) value {
-			return m.equalsT(nil, a[0], a[1])
+			// the library's loop: compare, ask an Is method, unwrap (single-error chains)
+			err := a[0]
+			for depth := 0; depth < 32; depth++ {
+				iv, ok := err.(ifaceV)
+				if !ok || iv.t == nil {
+					return tFalse
+				}
+				if tv, ok := a[1].(ifaceV); ok && tv.t != nil && types.Identical(iv.t, tv.t) && types.Comparable(iv.t) {
+					if m.branch(m.equalsT(nil, err, a[1])) {
+						return tTrue
+					}
+				}
+				ms := types.NewMethodSet(iv.t)
+				find := func(name string) *ssa.Function {
+					for i := 0; i < ms.Len(); i++ {
+						if f, ok := ms.At(i).Obj().(*types.Func); ok && f.Name() == name {
+							return m.prog.LookupMethod(iv.t, f.Pkg(), name)
+						}
+					}
+					return nil
+				}
+				if f := find("Is"); f != nil && f.Signature.Params().Len() == 2 && f.Signature.Results().Len() == 1 {
+					if r, ok := m.call(c, 0, f, []value{iv.v, a[1]}).(*Term); ok && m.branch(r) {
+						return tTrue
+					}
+				}
+				f := find("Unwrap")
+				if f == nil || f.Signature.Results().Len() != 1 {
+					return tFalse
+				}
+				if _, isSlice := f.Signature.Results().At(0).Type().Underlying().(*types.Slice); isSlice {
+					m.abort("errors.Is over a multi-error Unwrap is not modelled")
+				}
+				err = m.call(c, 0, f, []value{iv.v})
+			}
+			m.abort("errors.Is: chain longer than 32")
+			return nil
 		},
 		// sort.Slice uses reflect.Swapper natively: insertion sort through the less closure
 		"sort.Slice": func(m *Machine, c *frame, fn *ssa.Function, a []value) value {
@@ -648,7 +684,40 @@ func init() {
 			return m.sprintf(c, a[0].(strV), a[1])
 		},
 		"fmt.Errorf": func(m *Machine, c *frame, fn *ssa.Function, a []value) value {
-			return m.newError(m.sprintf(c, a[0].(strV), a[1]))
+			msg := m.sprintf(c, a[0].(strV), a[1])
+			// a single %w verb: the result wraps that operand (errors.Is / errors.As / Unwrap see it)
+			if fs, ok := a[0].(strV).Concrete(); ok && strings.Count(fs, "%w") == 1 {
+				idx := 0
+				for i := 0; i+1 < len(fs); i++ {
+					if fs[i] != '%' {
+						continue
+					}
+					if fs[i+1] == '%' {
+						i++
+						continue
+					}
+					if fs[i+1] == 'w' {
+						break
+					}
+					idx++
+				}
+				if args, ok := a[1].([]value); ok && idx < len(args) {
+					if iv, ok := args[idx].(ifaceV); ok && iv.t != nil {
+						if fp := m.prog.ImportedPackage("fmt"); fp != nil && fp.Type("wrapError") != nil {
+							t := fp.Type("wrapError").Object().Type()
+							var cell value = structV{msg, iv}
+							return ifaceV{t: types.NewPointer(t), v: &cell}
+						}
+					}
+				}
+			}
+			return m.newError(msg)
+		},
+		"(*fmt.wrapError).Error": func(m *Machine, c *frame, fn *ssa.Function, a []value) value {
+			return (*m.ptr(a[0])).(structV)[0]
+		},
+		"(*fmt.wrapError).Unwrap": func(m *Machine, c *frame, fn *ssa.Function, a []value) value {
+			return (*m.ptr(a[0])).(structV)[1]
 		},
 		"fmt.Sprint": func(m *Machine, c *frame, fn *ssa.Function, a []value) value {
 			return m.sprint(c, a[0], false)
